@@ -503,6 +503,30 @@ def call_get_indexes(key: str, k: int, m: int):
     return None, s
 
 
+MUTATIONS = {"pop": "result.pop()", "clear": "result.clear()", "add": "result.add(max_index + 7)", "discard": "result.discard(min(result))",
+             "update": "result |= {0, 1, 2}", "diff": "result -= set(sorted(result)[::2])"}
+
+
+def mutate_result(s: set, how: str, m: int):
+    """what a caller may do with the set it was given"""
+    if how == "pop":
+        if s:
+            s.pop()
+    elif how == "clear":
+        s.clear()
+    elif how == "add":
+        s.add(m + 7)
+    elif how == "discard":
+        if s:
+            s.discard(min(s))
+    elif how == "update":
+        s |= {0, 1, 2}
+    elif how == "diff":
+        s -= set(sorted(s)[::2])
+    else:
+        raise HarnessError(f"unknown mutation {how}")
+
+
 def spec_indexes(s, k: int, m: int):
     """the property statement on the implementation's own output"""
     if not isinstance(s, (set, frozenset)):
@@ -517,7 +541,8 @@ def spec_indexes(s, k: int, m: int):
 
 
 def eval_idx(cases: list[dict]) -> list[Res]:
-    """case = {kind:'idx', key, k, m, algs:'real'|'multi3'}"""
+    """case = {kind:'idx', key, k, m, algs:'real'|'multi3', mut?}  (mut: the caller changes the returned set - pop / clear / add /
+    discard / update / diff - and calls again with the same arguments: a two-call case)"""
     out, lines = [], []
     for c in cases:
         r = Res()
@@ -531,7 +556,22 @@ def eval_idx(cases: list[dict]) -> list[Res]:
             err3, s3 = call_get_indexes(key, k, m)     # the untouched module, no wrapper at all
         else:
             err3, s3 = err, s
-        impl = err if err else "S=" + showl(sorted(s)) if isinstance(s, (set, frozenset)) else f"?{s!r}"
+        # everything about the first answer is judged BEFORE the caller touches it
+        snap = sorted(s) if err is None and isinstance(s, (set, frozenset)) and all(type(x) is int for x in s) else None
+        bad = spec_indexes(s, k, m) if err is None else None
+        nondet = None
+        if err is None and not bad and ((err2, s2) != (None, s) or (err3, s3) != (None, s)):
+            nondet = f"{sorted(s)} then {s2 and sorted(s2)} / {s3 and sorted(s3)}"
+        mutated = None
+        if c.get("mut") and err is None and isinstance(s, set):
+            # the caller changes the set it was given, then asks again with the same arguments: the answer must be the
+            # same as before (a result is the caller's own object - nothing the function remembers)
+            first = sorted(s)
+            mutate_result(s, c["mut"], m)
+            with patched_algorithms(funcs, count=True):
+                err4, s4 = call_get_indexes(key, k, m)
+            mutated = (first, err4, s4)
+        impl = err if err else "S=" + showl(snap) if snap is not None else f"?{s!r}"
         r.trace = [{"call": f"get_indexes({key!r}, {k}, {m})", "algorithms": c["algs"], "impl": impl, "hash_calls": probes}]
         if k > m:
             r.stats.add("k_gt_m_assert")
@@ -542,11 +582,18 @@ def eval_idx(cases: list[dict]) -> list[Res]:
         elif err:
             r.diff_spec = f"get_indexes({key!r},{k},{m}) raised {err}"
         else:
-            bad = spec_indexes(s, k, m)
             if bad:
-                r.diff_spec = f"get_indexes({key!r},{k},{m}) = {sorted(s) if isinstance(s, (set, frozenset)) else s!r}: {bad}"
-            elif (err2, s2) != (None, s) or (err3, s3) != (None, s):
-                r.diff_spec = f"get_indexes({key!r},{k},{m}) is not deterministic: {sorted(s)} then {s2 and sorted(s2)} / {s3 and sorted(s3)}"
+                r.diff_spec = f"get_indexes({key!r},{k},{m}) = {snap if snap is not None else repr(s)}: {bad}"
+            elif nondet:
+                r.diff_spec = f"get_indexes({key!r},{k},{m}) is not deterministic: {nondet}"
+            if mutated is not None:
+                r.stats.add("same_arguments_again_after_the_caller_changed_the_result")
+                first, err4, s4 = mutated
+                r.trace[0].update({"caller_then": c["mut"], "second_call": err4 or (sorted(s4) if isinstance(s4, (set, frozenset)) else repr(s4))})
+                bad4 = err4 or spec_indexes(s4, k, m) or (None if sorted(s4) == first else "differs from the first answer")
+                if bad4 and r.diff_spec is None:
+                    r.diff_spec = (f"get_indexes({key!r},{k},{m}) answered {first}; the caller did `{MUTATIONS[c['mut']]}` on that result; the same call "
+                                   f"then answered {err4 or sorted(s4)}: {bad4}")
             if k == m and k > 0:
                 r.stats.add("k_eq_m")
             if probes > k:
